@@ -2,6 +2,7 @@
 import copy
 import io
 import math
+import re
 
 import numpy as np
 
@@ -22,6 +23,8 @@ ASSUMPTIONS = [
     "(lasio raises TypeError or skips the refresh) and is not generated; text curves sit in non-index positions only",
     "a write() that raises (missing STRT/STOP/STEP item, all curves deleted) is outside the statement: the direct oracle says nothing, "
     "but model and implementation must agree that it raises (correspondence)",
+    "a NaN index cell is not combined with an integer conversion for the index column ('%d' % nan raises ValueError in CPython, so that "
+    "write() raises) nor with width/sign flags (the model prints fmt % nan as the literal nan)",
 ]
 
 WOPTS = [dict(), dict(version=1.2), dict(version=2), dict(wrap=True), dict(wrap=False), dict(version=1.2, wrap=True, data_width=40),
@@ -90,10 +93,22 @@ def gen_scratch(rng):
         name = rng.choice(["DEPT", "DEPTH", "TIME"]) if j == 0 else rng.choice(["GR", "RHOB", "GR", "", "X1"])
         curves.append((name, rng.choice(["m", "FT", ""]), toks))
     ops = [("EB", curves)]
-    wkw = copy.deepcopy(rng.choice(WOPTS))
+    wkw = pick_wopts(rng, "nan" in idx)
     for _ in range(rng.choice([1, 2, 3])):
         ops.append(("W", wkw))
-    return "", ops, "scratch_built", False, {"scratch_built"}
+    return "", ops, "scratch_built", False, {"scratch_built"} | ({"nan_index"} if "nan" in idx and nc else set())
+
+
+def index_fmt(wkw):
+    return (wkw.get("column_fmt") or {}).get(0, wkw.get("fmt", "%.5f"))
+
+
+def pick_wopts(rng, nan_index):
+    """one of the option sets; with NaN in the index only those whose index format prints nan as the literal (ASSUMPTIONS)"""
+    while True:
+        wkw = copy.deepcopy(rng.choice(WOPTS))
+        if not nan_index or re.fullmatch(r"%(\.\d+)?[feg]", index_fmt(wkw)):
+            return wkw
 
 
 def gen_case(rng):
@@ -182,7 +197,10 @@ def gen_case(rng):
                                ("EV", "V", "WRAP", "YES")]))
     else:
         mode = "read"
-    wkw = copy.deepcopy(rng.choice(WOPTS))
+    nan_index = "nan" in idx or any(o[0] == "ES" and o[1] == 0 and "nan" in o[2] for o in ops)
+    if nan_index:
+        feats.add("nan_index")
+    wkw = pick_wopts(rng, nan_index)
     nw = rng.choice([1, 2, 3])
     for _ in range(nw):
         ops.append(("W", wkw))
@@ -299,6 +317,20 @@ def oracle(text, ops, detail=None):
     if snaps[0] != snaps[1]:
         return "second write() changed the object again"
     # 3. truthfulness
+    if index is not None and len(index) and all(isinstance(x, float) for x in index) and any(math.isnan(x) for x in index):
+        # NaN in the index: STRT/STOP are the printed first/last cells ("nan" for a NaN cell), STEP is "nan" when these differ and one
+        # of the first two cells is NaN
+        created_or_changed = index_initial is None or not np.array_equal(index_initial, index)
+        if created_or_changed:
+            ifmt = index_fmt(wkw)
+            w = {it.mnemonic.upper(): it for it in las.well}
+            s0, s1 = ifmt % index[0], ifmt % index[-1]
+            same = lambda v, t: str(v).strip() == t.strip() or (not isinstance(v, str) and v == v and float(v) == float(t))
+            if not same(w["STRT"].value, s0) or not same(w["STOP"].value, s1):
+                return "NaN in the index: STRT/STOP are %r/%r after write(), first/last index cells print as %r/%r" % (w["STRT"].value, w["STOP"].value, s0, s1)
+            if s0 != s1 and (math.isnan(index[0]) or (len(index) > 1 and math.isnan(index[1]))):
+                if str(w["STEP"].value).strip() != "nan":
+                    return "NaN in the index: STEP is %r after write(), the first increment is NaN" % (w["STEP"].value,)
     if index is not None and len(index) and all(isinstance(x, float) and not math.isnan(x) for x in index):
         stop_before = [x for x in before["Well"] if x[1].upper() == "STOP"][0][3]
         created_or_changed = index_initial is None or not np.array_equal(index_initial, index)
@@ -315,7 +347,7 @@ def oracle(text, ops, detail=None):
         if created_or_changed or disagrees:
             l2 = lasio.read(outs[0])
             w = {it.mnemonic: it for it in l2.well}
-            ifmt = (wkw.get("column_fmt") or {}).get(0, wkw.get("fmt", "%.5f"))     # the index column's format
+            ifmt = index_fmt(wkw)     # the index column's format
             exp_strt = float(ifmt % index[0])
             exp_stop = float(ifmt % index[-1])
             if float(w["STRT"].value) != exp_strt or float(w["STOP"].value) != exp_stop:
@@ -350,10 +382,11 @@ def run(ctx):
         for f in feats:
             hist["+" + f] = hist.get("+" + f, 0) + 1
         if "rejected" in detail:
-            # a write that raises is outside the statement; it is expected for a missing STRT/STOP/STEP item and for a LASFile
-            # without curves only - anything else would shrink the sample silently
+            # a write that raises is outside the statement; it is expected for a missing STRT/STOP/STEP item, for a NaN sample when
+            # there is no NULL item to print it with, and for a LASFile without curves - anything else would shrink the sample silently
             hist["write_raises"] = hist.get("write_raises", 0) + 1
-            if not (any(f.startswith("missing_ST") for f in feats) or mode == "delete_all"):
+            if not (any(f.startswith("missing_ST") for f in feats) or mode == "delete_all"
+                    or ("missing_NULL" in feats and ("nan_index" in feats or "NULL" in detail["rejected"]))):
                 unexpected.append("%s %r: %s" % (mode, sorted(feats), detail["rejected"]))
         if mode == "scratch_built" and not SCRATCH_BUILT_MODEL:
             continue
